@@ -159,6 +159,22 @@ def nat_list(xs):
 
 
 # ------------------------------------------------------------------ string pools
+def confusable(rng, s):
+    """a different string that a cache key normalisation (strip, casefold, drop line breaks / white space, collapse blanks) would identify
+    with s; it may well parse differently (white space inside a key makes it malformed, inside an AHB condition part changes the token)"""
+    k = rng.choice(("ws", "ws", "nl", "nl", "case", "edge", "dup"))
+    if k in ("ws", "nl") and s:
+        i = rng.randint(0, len(s))
+        return s[:i] + (rng.choice((" ", "\t", "  ")) if k == "ws" else rng.choice(("\n", "\r\n", "\n "))) + s[i:]
+    if k == "case":
+        return s.swapcase()
+    if k == "edge":
+        return rng.choice((" ", "\n", "")) + s + rng.choice((" ", "\n", "\t"))
+    if k == "dup" and " " in s:
+        return s.replace(" ", "  ", 1)
+    return s + " "
+
+
 def cond_strings(rng, n):
     ops = ["U", "O", "X", " U ", " O ", " X ", "∧", "∨", "⊻", "", " "]
     out, seen = [], set()
@@ -190,6 +206,8 @@ def cond_strings(rng, n):
             s = rng.choice(bad) + (" " * rng.randint(0, 3)) + (f"[{rng.randint(1, 999)}]" if rng.random() < 0.5 else "")
             if rng.random() < 0.5:
                 s = f"[{rng.randint(1, 999)}]" + s
+        elif out and rng.random() < 0.22:
+            s = confusable(rng, rng.choice(out[-40:]))
         else:
             s = expr(rng.choice([1, 1, 2, 2, 2, 3, 3, 4]))
         if s not in seen:
@@ -213,6 +231,8 @@ def ahb_strings(rng, n):
             s = rng.choice(bad) + (f"[{rng.randint(1, 999)}]" if rng.random() < 0.6 else "")
         elif r < 0.16:
             s = rng.choice(marks)
+        elif r < 0.36 and out:
+            s = confusable(rng, rng.choice(out[-40:]))
         elif r < 0.6:
             s = rng.choice(marks) + rng.choice(["", " "]) + cond()
         else:
@@ -299,6 +319,63 @@ def shrink(im, hist, deadline):
             r = first_failure(execute(im, cand))
             if r is not None:
                 hist, changed = cand[: r["op"] + 1], True
+            else:
+                i += chunk
+        if chunk == 1 and not changed:
+            break
+        chunk = max(1, chunk // 2) if not (chunk == 1 and changed) else 1
+    return hist
+
+
+def concat_histories(hists):
+    """all operations since the start of the process as ONE history (labels shifted): needed when state outside the lru caches survives
+    between the random histories, so that a failure depends on earlier histories"""
+    out, off = [], 0
+    for h in hists:
+        for op in h:
+            if op[0] == "parse":
+                out.append(["parse", op[1], op[2], op[3] + off])
+            elif op[0] == "edit":
+                src = op[5]
+                if src is not None and src[0] == "sub":
+                    src = ["sub", src[1] + off, src[2]]
+                out.append(["edit", op[1] + off, op[2], op[3], op[4], src])
+            else:
+                out.append([op[0], op[1] + off] + list(op[2:]))
+        off += len(h)
+    return out
+
+
+def reproduces_in_fresh_process(hist):
+    """does the history violate the property when it is replayed in a new interpreter (nothing left over from this run)?"""
+    import subprocess
+    import sys
+
+    d = os.path.join(runner.WORK, "C11")
+    os.makedirs(d, exist_ok=True)
+    path = os.path.join(d, "candidate_replay.json")
+    with open(path, "w", encoding="utf-8") as f:
+        json.dump({"input": {"history": hist}}, f, ensure_ascii=False)
+    try:
+        r = subprocess.run([sys.executable, os.path.join(runner.ROOT, "check"), "C11", "--replay", path], capture_output=True, text=True, timeout=600, check=False)
+    except subprocess.TimeoutExpired:
+        return False
+    return r.returncode == 1 and "property violated" in r.stdout
+
+
+def shrink_fresh(hist, budget=30):
+    """coarse ddmin whose test is a replay in a fresh interpreter (each test costs a process start, hence the small budget)"""
+    chunk = max(1, len(hist) // 2)
+    while chunk >= 1 and budget > 0:
+        i, changed = 0, False
+        while i < len(hist) - 1 and budget > 0:
+            cand = hist[:i] + hist[i + chunk:]
+            if not cand or cand[-1][0] != "parse":
+                i += chunk
+                continue
+            budget -= 1
+            if reproduces_in_fresh_process(cand):
+                hist, changed = cand, True
             else:
                 i += chunk
         if chunk == 1 and not changed:
@@ -653,9 +730,23 @@ def run(ctx):
             rep = first_failure(execute(im, small))
             if rep is None:  # (evaluation-only failure: keep the unshrunk prefix)
                 small, rep = hr.jhist[: label + 1], {"expected": exp, "observed": obs}
+            # the replay must stand on its own: confirm it in a fresh interpreter, else fall back to longer histories
+            note = f"shrunk from {label + 1} to {len(small)} operations"
+            if not reproduces_in_fresh_process(small):
+                full = hr.jhist[: label + 1]
+                everything = concat_histories([r.jhist for r in runs[:-1]] + [full])
+                if reproduces_in_fresh_process(full):
+                    small = shrink_fresh(full)
+                    note = f"the in-process shrinking does not reproduce in a fresh process (state outside the caches survives a cache clear); shrunk from {label + 1} to {len(small)} with a fresh interpreter per test"
+                elif reproduces_in_fresh_process(everything):
+                    small = shrink_fresh(everything)
+                    note = (f"the failure depends on earlier histories (state outside the caches survives): all {len(everything)} operations since the start of the run, "
+                            f"shrunk to {len(small)} with a fresh interpreter per test")
+                else:
+                    note += "; NOT reproduced in a fresh process (depends on state this run left behind)"
             key = "history|" + hashlib.sha1(json.dumps(small, ensure_ascii=False).encode()).hexdigest()[:12]
             ctx.fail(key, {"history": small, "found_in_history": k, "length_before_shrinking": label + 1},
-                     show(rep["expected"]), show(rep["observed"]), how + f" (random history {k}, shrunk from {label + 1} to {len(small)} operations)")
+                     show(rep["expected"]), show(rep["observed"]), how + f" (random history {k}, {note})")
     n_failing_hist = sum(1 for r in runs if r.failures)
     n_failing_parses = sum(len(r.failures) for r in runs)
     im.clear()
